@@ -25,12 +25,12 @@ theorem c04_ss_legacy_stream (C : Crypto) (hC : C.Lawful) (ctx : Ctx) (hk : ctx.
   -- the first write: salt ‖ chunks(address ‖ payload)
   let a0 := newAuth C ctx.kind ctx.key cs.salt
   have henc : encode C ctx cs {} wb wr =
-      (cs.salt ++ (encPayload C a0 0xffff (Socks5Addr.encode ad ++ wb)).1, ⟨some (encPayload C a0 0xffff (Socks5Addr.encode ad ++ wb)).2⟩) := by
+      (cs.salt ++ (encPayload C a0 ctx.kind.payloadLimit (Socks5Addr.encode ad ++ wb)).1, ⟨some (encPayload C a0 ctx.kind.payloadLimit (Socks5Addr.encode ad ++ wb)).2⟩) := by
     simp [encode, hk, hne, hm, ha, a0]
-  obtain ⟨a', h2, h3⟩ := encodeAll_some_roundtrip C hC ctx cs ws (encPayload C a0 0xffff (Socks5Addr.encode ad ++ wb)).2
+  obtain ⟨a', h2, h3⟩ := encodeAll_some_roundtrip C hC ctx cs ws (encPayload C a0 ctx.kind.payloadLimit (Socks5Addr.encode ad ++ wb)).2
   have hall : (encodeAll C ctx cs {} ((wb, wr) :: ws)).1 =
-      cs.salt ++ ((encPayload C a0 0xffff (Socks5Addr.encode ad ++ wb)).1 ++
-        (encodeAll C ctx cs ⟨some (encPayload C a0 0xffff (Socks5Addr.encode ad ++ wb)).2⟩ ws).1) := by
+      cs.salt ++ ((encPayload C a0 ctx.kind.payloadLimit (Socks5Addr.encode ad ++ wb)).1 ++
+        (encodeAll C ctx cs ⟨some (encPayload C a0 ctx.kind.payloadLimit (Socks5Addr.encode ad ++ wb)).2⟩ ws).1) := by
     simp [encodeAll, henc]
   -- salt step
   have hn := kind_n_pos ctx.kind
@@ -43,7 +43,7 @@ theorem c04_ss_legacy_stream (C : Crypto) (hC : C.Lawful) (ctx : Ctx) (hk : ctx.
   have hrun : run (unit C ctx env) ⟨none, ds⟩ (encodeAll C ctx cs {} ((wb, wr) :: ws)).1 =
       ⟨⟨some ⟨a', .length⟩, ds⟩, [], (Socks5Addr.encode ad ++ wb ++ (ws.map Prod.fst).flatten).map .byte, false⟩ := by
     rw [hall, run_take _ G _ _ _ _ _ (u0 _), hd, run_lift,
-      run_concat _ (chunkUnit_good C hC) _ _ _ _ _ (payload_roundtrip C hC a0 _), h3]
+      run_concat _ (chunkUnit_good C hC) _ _ _ _ _ (payload_roundtrip C hC a0 _ (payloadLimit_good ctx.kind) _), h3]
     simp [liftOut]
   simp only [hrun, Ev.bytes_map_byte]
   simp [List.append_assoc]
@@ -72,17 +72,17 @@ theorem c04_ss_legacy_segmented (C : Crypto) (hC : C.Lawful) (ctx : Ctx) (hk : c
 
 /-- the chunk layer alone (both directions, every cipher incl. Shadowsocks 2022 after its header):
 any chunk list, any segmentation, ends quiescent -/
-theorem c04_ss_chunks_segmented (C : Crypto) (hC : C.Lawful) (a : Auth) (p : Bytes)
-    (pieces : List Bytes) (hcut : pieces.flatten = (encPayload C a 0xffff p).1) :
+theorem c04_ss_chunks_segmented (C : Crypto) (hC : C.Lawful) (a : Auth) (k : Kind) (p : Bytes)
+    (pieces : List Bytes) (hcut : pieces.flatten = (encPayload C a k.payloadLimit p).1) :
     let r := pieces.foldl (feed (chunkUnit C)) (run (chunkUnit C) ⟨a, .length⟩ [])
     r.out = p ∧ r.failed = false ∧ r.buf = [] ∧ chunkUnit C r.st r.buf = .need := by
   have G := chunkUnit_good C hC
   intro r
-  have hr : r = run (chunkUnit C) ⟨a, .length⟩ (encPayload C a 0xffff p).1 := by
+  have hr : r = run (chunkUnit C) ⟨a, .length⟩ (encPayload C a k.payloadLimit p).1 := by
     have := feed_pieces (chunkUnit C) G pieces ⟨a, .length⟩ []
     simp only [List.nil_append, hcut] at this
     exact this
-  rw [hr, payload_roundtrip C hC a p]
+  rw [hr, payload_roundtrip C hC a _ (payloadLimit_good k) p]
   simp [chunkUnit]
 
 /-! non-vacuity: the hypotheses are satisfiable (toy crypto is lawful; a concrete legacy session) -/
